@@ -147,7 +147,9 @@ func Eval(e Expr, row map[string]any, env *Env) (v any, ok bool) {
 			}
 			res = x / y
 		case "DIV":
-			if y == 0 || !isInt(x) || !isInt(y) {
+			// integer-valued divisor: the quotient truncated toward zero (for an integer divisor,
+			// truncating the dividend first gives the same result); fractional divisors: unspecified
+			if y == 0 || !isInt(y) {
 				return nil, false
 			}
 			res = math.Trunc(x / y)
